@@ -15,7 +15,7 @@
 // goroutine the repo started, ...) the parent attributes the death to the open journal entry
 // by the crash report in the child's output and resumes the batch behind that case. A case
 // that burns more than 15 s of CPU time (or is parked without using CPU) is only a
-// *suspect*: it is re-run alone in a fresh child and called a hang only if it burns 60 s of
+// *suspect*: it is re-run alone in a fresh child and called a hang only if it burns 240 s of
 // CPU without finishing or stays parked for 120 s with no CPU use; a goroutine dump
 // (runtime.Stack, which also shows spinning goroutines) is attached. CPU time and idleness
 // rather than wall-clock decide because the machine is shared. Allocation failures under
@@ -296,7 +296,7 @@ func top(r *vf.Run) {
 	r.Set("cases_planned", n-from0)
 	r.Set("parallel_children", par)
 	r.Assume("the Go runtime reports every fatal condition of a child on its stderr (panic / fatal error / signal) before the process ends; a death without such a report is counted inconclusive")
-	r.Assume("hang = the case, run alone, burns 60 s of CPU time (240 s in the race build) without finishing, or is parked for >=120 s with no CPU use in the last 30 s: 4-5 orders of magnitude above the normal cost (milliseconds); decided on CPU time and idleness, not on wall-clock, because the machine is shared")
+	r.Assume("hang = the case, run alone, burns 240 s of CPU time (600 s in the race build) without finishing, or is parked for >=120 s with no CPU use in the last 30 s: 4-5 orders of magnitude above the normal cost (milliseconds); decided on CPU time and idleness, not on wall-clock, because the machine is shared")
 	r.Assume("debug.SetMaxStack(16 MiB) in the children: unbounded recursion is reported as 'stack overflow' earlier than with the 1 GiB default; generated inputs nest at most ~3000 levels, far below either limit")
 	r.Assume("klauspost/compress, encoding/json, archive/tar, go-fuse, bbolt are part of the trusted base only in so far as a crash inside them with a /repo frame below is attributed to that /repo frame")
 }
@@ -677,9 +677,14 @@ func solo(r *vf.Run) {
 		defer close(done)
 		runCase(c)
 	}()
-	hangCPU := time.Duration(envInt("C04_HANG_CPU_S", 60)) * time.Second
+	// 240 s, not 60: the dearest finite cases of the generators (200 one-chunk files in a
+	// zstd:chunked layer: a zstd decoder and a cache file per chunk) cost 5-10 s of CPU on an
+	// idle machine and were measured at 40-50 s (half of it system time: tmpfs and scheduler
+	// contention) at a load average of 46 — one of them crossed 60 s when three C04 runs
+	// shared the machine. A dead loop burns through any budget; the price is the time to confirm.
+	hangCPU := time.Duration(envInt("C04_HANG_CPU_S", 240)) * time.Second
 	if r.RaceBuild {
-		hangCPU *= 4
+		hangCPU = hangCPU * 5 / 2
 	}
 	if why := awaitCase(done, hangCPU, time.Duration(envInt("C04_HANG_S", 120))*time.Second, 30*time.Second); why != "" {
 		buf := make([]byte, 32<<20)
